@@ -1010,6 +1010,12 @@ func init() {
 			appends := 0
 			eachInstr(push, func(in ssa.Instruction) {
 				if cl, ok := in.(*ssa.Call); ok && calleeName(&cl.Call) == "builtin.append" {
+					// appends to the scope list; a parallel record kept per scope (where the map came from) is not a scope
+					if len(cl.Call.Args) > 0 {
+						if f := loadedField(cl.Call.Args[0]); f != nil && !fieldIs(f, "stack") {
+							return
+						}
+					}
 					appends++
 				}
 			})
